@@ -13,6 +13,8 @@ CONSTANTS
   LoneBulk = FALSE
   SDelims <- MCSDelims
   RDelims <- MCRDelims
+  RunLists <- MCRunLists
+  EvalMode = "each"
 INVARIANT DistinctInv
 INVARIANT Partition
 INVARIANT EachOnceReactions
@@ -24,4 +26,5 @@ INVARIANT EachOnceBulk
 INVARIANT CountsMatch
 INVARIANT ReadBack
 INVARIANT TubeInv
+INVARIANT RunsInv
 CHECK_DEADLOCK FALSE
